@@ -113,6 +113,17 @@ type kase struct {
 	resp   *protos.InvokeResponse
 	robs   respObs
 	setupN int
+	// early: the transaction of the coming submission, assembled and handed to VerifyTx BEFORE another client's
+	// interleaved write lands (the window between VerifyTx and DoTx of Chain.SubmitTx); the submission then goes on
+	// with DoTx alone
+	early    *earlySubmit
+	lastWire *pb.Transaction
+}
+
+type earlySubmit struct {
+	wire  *pb.Transaction
+	res   string // "" = verified, go on with DoTx
+	extra fx.Ev
 }
 
 func newKase(w *world, k int) *kase { return newKaseOwn(w, k, false) }
@@ -955,7 +966,22 @@ func (c *kase) build(p *parts) (*pb.Transaction, error) {
 }
 
 // submit: State.VerifyTx then State.DoTx, exactly what Chain.SubmitTx does; reports the outcome class.
-func (c *kase) submit(op fx.Ev) (res string, extra fx.Ev, err error) {
+func (c *kase) submit(op fx.Ev) (res string, extra fx.Ev, err error) { return c.submitX(op, false) }
+
+// prepareEarly assembles the transaction of the coming submission and hands it to VerifyTx now (before an interleaved write).
+func (c *kase) prepareEarly(op fx.Ev) {
+	res, extra, err := c.submitX(op, true)
+	if err != nil {
+		return // the submission will be assembled again at its own line and report the error there
+	}
+	if res == "inapplicable" {
+		return
+	}
+	c.early = &earlySubmit{wire: c.lastWire, res: res, extra: extra}
+}
+
+// submitX: verifyNow = stop after VerifyTx (prepareEarly).
+func (c *kase) submitX(op fx.Ev, verifyNow bool) (res string, extra fx.Ev, err error) {
 	defer func() {
 		if r := recover(); r != nil {
 			res, extra, err = "panic", fx.Ev{"err": fmt.Sprintf("panic: %v", r)}, nil
@@ -988,12 +1014,28 @@ func (c *kase) submit(op fx.Ev) (res string, extra fx.Ev, err error) {
 	if err := proto.Unmarshal(raw, wire); err != nil {
 		return "", nil, err
 	}
+	c.lastWire = wire
 	st := c.w.node.State
-	ok, verr := st.VerifyTx(wire)
-	if !ok || verr != nil {
-		extra["stage"] = "verify"
-		extra["err"] = fmt.Sprint(verr)
-		return "reject", extra, nil
+	if c.early != nil && !verifyNow {
+		// assembled and verified before the interleaved write (see prepareEarly)
+		e := c.early
+		c.early = nil
+		wire, extra = e.wire, e.extra
+		extra["early_verify"] = true
+		c.names[hex.EncodeToString(wire.Txid)] = "t"
+		if e.res != "" {
+			return e.res, extra, nil
+		}
+	} else {
+		ok, verr := st.VerifyTx(wire)
+		if !ok || verr != nil {
+			extra["stage"] = "verify"
+			extra["err"] = fmt.Sprint(verr)
+			return "reject", extra, nil
+		}
+		if verifyNow {
+			return "", extra, nil
+		}
 	}
 	if derr := st.DoTx(wire); derr != nil {
 		extra["stage"] = "dotx"
